@@ -93,7 +93,7 @@ for _cls in ('HotBuffer', 'ColdBuffer'):
     REG.contract(f'{_cls}.transfer_observation',
                  params={'observation': 'Observation', 'transfer_rate': 'num', 'residual_data': 'num'},
                  requires=_send_req, ensures=_send_ens, result='num',
-                 modifies=['self.current_capacity', 'self.observations.transfer'], props=['C18'])
+                 modifies=['self.current_capacity', 'self.observations.transfer'], props=['C18', 'C07'])
 
 
 def _recv_ens(rate_of):
@@ -116,10 +116,10 @@ def _recv_ens(rate_of):
 REG.contract('ColdBuffer.receive_observation', params={'observation': 'Observation', 'residual_data': 'num', 'data_rate': 'num'},
              requires=_send_req, ensures=_recv_ens(lambda c: c.o.data_rate.t), result='num',
              note="the default data_rate=None (the tier's own rate) is not used by any in-tree caller and is not covered",
-             modifies=['self.current_capacity', 'self.observations.transfer', 'self.observations.stored'], props=['C18'])
+             modifies=['self.current_capacity', 'self.observations.transfer', 'self.observations.stored'], props=['C18', 'C07'])
 REG.contract('HotBuffer.receive_observation', params={'observation': 'Observation', 'residual_data': 'num', 'data_rate': 'num'},
              requires=_send_req, ensures=_recv_ens(lambda c: c.o.data_rate.t), result='num',
-             modifies=['self.current_capacity', 'self.observations.transfer', 'self.observations.stored'], props=['C18'])
+             modifies=['self.current_capacity', 'self.observations.transfer', 'self.observations.stored'], props=['C18', 'C07'])
 
 
 def _oft_ens(c):
@@ -135,7 +135,7 @@ for _cls in ('HotBuffer', 'ColdBuffer'):
     REG.contract(f'{_cls}.observation_for_transfer',
                  requires=lambda c: [('something-stored', c.o.self.observations['stored'].n > 0)],
                  ensures=_oft_ens, result='Observation',
-                 modifies=['self.observations.stored', 'self.observations.transfer'], props=['C18'])
+                 modifies=['self.observations.stored', 'self.observations.transfer'], props=['C18', 'C07'])
 
 # ---------------------------------------------------------------------------------------------- hot-buffer ingest / removal (C07)
 def _pids_ens(c):
@@ -473,7 +473,7 @@ def _move_contract(name, src_tier, dst_tier, direction):
                  modifies=['self.events', 'ghost:unlogged_buffer', 'self._data_left_to_transfer', 'self.hot.0.current_capacity', 'self.cold.0.current_capacity',
                            'self.hot.0.observations.stored', 'self.cold.0.observations.stored', 'self.hot.0.observations.transfer',
                            'self.cold.0.observations.transfer'],
-                 props=['C18'])
+                 props=['C18', 'C07'])
 
 
 _move_contract('move_hot_to_cold', hot, cold, 'h2c')
